@@ -267,6 +267,10 @@ def main() -> int:
             continue
         A, B = actions_results(ra), actions_results(rb)
         _, _, pname, prop, tgt = binfo[ja["id"]]
+        if len(A) != len(B) and len(B) < len(A) and any("duplicate models with name" in ((x.get("detail") or "") + (x.get("header") or "")) for x in (rb.get("diags") or [])):
+            # the inline copy derives a class name of its own (<Owner><Property>) that another schema of the document already holds: diagnosed, not an inequivalence
+            ev.count("inline_copy_class_name_taken")
+            continue
         if len(A) != len(B):
             # the model exists on one side only: by reference it was diagnosed / removed, inline it was generated (or the other way round)
             vd.violation("ref_vs_inline_generated_differs", f"{bases[bi][0] if bi < len(bases) else 'positions'}: {pname}.{prop} -> {tgt}: {len(A)} usable instances by reference, {len(B)} with the inline copy; diagnostics {[x['detail'][:100] for x in (ra.get('diags') or [])][:1]} vs {[x['detail'][:100] for x in (rb.get('diags') or [])][:1]}",
